@@ -47,6 +47,13 @@ func otlpTracesOp(op *plan.Op) (interface{}, error) {
 		if s.Svc != curSvc {
 			cur = &tracepb.ResourceSpans{Resource: &resourcepb.Resource{Attributes: []*commonpb.KeyValue{{Key: "service.name", Value: &commonpb.AnyValue{Value: &commonpb.AnyValue_StringValue{StringValue: s.Svc}}}}},
 				ScopeSpans: []*tracepb.ScopeSpans{{}}}
+			switch s.Svc {
+			case "":
+				// a resource that does not name its service (another attribute only)
+				cur.Resource.Attributes = []*commonpb.KeyValue{{Key: "host.name", Value: &commonpb.AnyValue{Value: &commonpb.AnyValue_StringValue{StringValue: "h1"}}}}
+			case "\x01":
+				cur.Resource = nil
+			}
 			req.ResourceSpans = append(req.ResourceSpans, cur)
 			curSvc = s.Svc
 		}
